@@ -68,6 +68,8 @@ def int_cases(rng, tier):
             vals.add(rng.randint(-(1 << 130), 1 << 130) if rng.random() < 0.05 else rng.randint(lo, hi))
         for v in sorted(vals):
             cases.append(dict(src=nm, op='build', obj=v))
+        for v in (2.7, -0.5, 1.0, 0.0, '12', '', b'3', None, [1], float('inf')):       # not integers: no encoding, whatever int() would make of them
+            cases.append(dict(src=nm, op='build', obj=v))
         datas = set()
         for ln in (n - 1, n, n + 1):
             for _ in range(12 if tier == 'quick' else 80):
